@@ -29,6 +29,19 @@ theorem OutEquiv.pairs_iff {a : Out} {l : List (Nat × Nat)} :
 
 end Spec
 
+theorem Spec.OutsEquiv.symm {l1 l2 : List Out} (h : OutsEquiv l1 l2) : OutsEquiv l2 l1 := by
+  induction h with
+  | nil => exact .nil
+  | cons hab _ ih => exact .cons (OutEquiv.symm hab) ih
+
+theorem Spec.OutsEquiv.trans {l1 l2 l3 : List Out} (h1 : OutsEquiv l1 l2) (h2 : OutsEquiv l2 l3) :
+    OutsEquiv l1 l3 := by
+  induction h1 generalizing l3 with
+  | nil => exact h2
+  | cons hab _ ih =>
+    cases h2 with
+    | cons hbc h2' => exact .cons (OutEquiv.trans hab hbc) (ih h2')
+
 theorem outOfBool_ne_panic (b : Bool) : outOfBool b ≠ .panic := by cases b <;> simp [outOfBool]
 
 /-- the specification never answers `panic` -/
